@@ -34,12 +34,33 @@ def _msg(mid, method, params):
 
 
 def replay_c04(name, model, rec):
-    ph, info, caps, ver = _mods()
     params = _plain(model.get("params"))
     candidates = [params] if isinstance(params, (dict, type(None))) else []
     # bounded search around the model: the shapes the property quantifies over
     candidates += [{"protocolVersion": v} for v in ["1999-01-01", "2025-01-01", "2025-03-26-draft", "2024-11-05\n", 7, None,
                                                    "", "2025-06-18", "2024-11-05"]] + [{}, None]
+    return c04_run(candidates)
+
+
+def c04_grid(tier):
+    """bounded stand-in for C04: every dddd-dd-dd string of a date grid, the supported versions, near misses of each
+    supported version and non-string / absent values"""
+    _ph, _info, _caps, ver = _mods()
+    sup = list(ver.SUPPORTED_VERSIONS)
+    years = range(2020, 2031) if tier == "thorough" else range(2024, 2027)
+    vs = [f"{y:04d}-{m:02d}-{d:02d}" for y in years for m in range(0, 14) for d in (0, 1, 5, 18, 26, 28, 31, 99)]
+    for v in sup:
+        vs += [v, v + " ", " " + v, v + "\n", v[:-1], v + "-draft", v.replace("-", "/"), v.upper(), v[:-1] + chr(ord(v[-1]) + 1)]
+    vs += ["", "latest", "1", 7, 7.5, None, True, ["2024-11-05"], {"v": 1}]
+    cands = [{"protocolVersion": v} for v in vs] + [{}, None, {"clientInfo": {"name": "c", "version": "1"}}]
+    r = c04_run(cands)
+    r["cases"] = len(cands)
+    r["bound"] = f"{len(cands)} initialize requests: date grid {years.start}..{years.stop - 1}, near misses of every supported version, non-string and absent values (bounded, not a proof)"
+    return r
+
+
+def c04_run(candidates):
+    ph, info, caps, ver = _mods()
     sup = list(ver.SUPPORTED_VERSIONS)
     for p in candidates:
         h = ph.ProtocolHandler(info.ServerInfo(name="s", version="1"), caps.ServerCapabilities())
